@@ -119,6 +119,32 @@ def describe_unordered(x):
     return ('leaf', id(x))
 
 
+class NTSorted(namedtuple('NTSorted', 'lo hi')):
+    """normalising constructor: not the identity on swapped children"""
+    __slots__ = ()
+
+    def __new__(cls, lo, hi):
+        if repr(lo) > repr(hi):
+            lo, hi = hi, lo
+        return super().__new__(cls, lo, hi)
+
+
+class NTInit(namedtuple('NTInit', 'a b')):
+    """__init__ leaves a trace in the instance dict"""
+
+    def __init__(self, a, b):
+        self.tag = ('init', type(a).__name__, type(b).__name__)
+
+
+class NTMake(namedtuple('NTMake', 'a b')):
+    """_make is overridden: the engine never calls it"""
+    __slots__ = ()
+
+    @classmethod
+    def _make(cls, iterable):
+        raise RuntimeError('_make called')
+
+
 class C18(runner.Prop):
     ID = 'C18'
     LEVEL = 'exploration'
@@ -291,6 +317,34 @@ class C18(runner.Prop):
                     continue
                 if describe_unordered(rebuilt) != describe_unordered(eng_rebuilt):
                     ctx.fail('one_level/unflatten', f'{n.kind}: python {rebuilt!r} engine {eng_rebuilt!r}')
+
+            # namedtuple subclasses that customise construction: the twin's unflatten function must build what the
+            # engine builds (the class called with the children), also for children the constructor is not the
+            # identity on
+            for cls in (NTSorted, NTInit, NTMake):
+                obj = cls(tree, U.Leaf(3))
+                if optree.tree_structure(obj, **kw).is_leaf():
+                    continue            # the predicate of this configuration makes it a leaf (refusal is checked above)
+                try:
+                    py = optree.tree_flatten_one_level(obj, **kw)
+                    ol = optree.tree_structure(obj, **kw).one_level()
+                except Exception as e:  # noqa: BLE001
+                    ctx.fail('one_level/python_raises', f'{cls.__name__}: {type(e).__name__}: {e}')
+                    continue
+                if ol is None:
+                    ctx.fail('one_level/engine_leaf', f'{cls.__name__}')
+                    continue
+                for ch in (list(py.children), list(py.children)[::-1], [U.Leaf(9), U.Leaf(1)]):
+                    outs = []
+                    for f in (lambda: py.unflatten_func(py.metadata, ch), lambda: ol.unflatten(ch)):
+                        try:
+                            r = f()
+                            outs.append((type(r), tuple(id(x) for x in r), getattr(r, '__dict__', None)))
+                        except Exception as e:  # noqa: BLE001
+                            outs.append(('raises', type(e).__name__))
+                    if outs[0] != outs[1]:
+                        ctx.fail('one_level/unflatten_custom_constructor', f'{cls.__name__}: python {outs[0]!r} engine {outs[1]!r}')
+            ctx.label('one_level:constructor_customising_namedtuples')
 
     # ---- (d)
     def cache_history(self, case, ctx):
